@@ -432,3 +432,49 @@ B("C18", BASE, "    def _edge_inds_within_type(self) -> np.ndarray:", "    @lru_
 # must-store: invariant-restoring stores are unconditional
 for _p in ("C13", "C19", "C10", "C11"):
     B(_p, BASE, '        self.nodes["controlled_by_param"] = 0\n\n    def _compute_coords_of_comp_centers', '        if "controlled_by_param" not in self.nodes.columns:\n            self.nodes["controlled_by_param"] = 0\n\n    def _compute_coords_of_comp_centers', "R-%s-muststore" % _p)
+
+# F23 (repaired): uniformity of a branch is decided by comparing values, not through a floating-point variance
+B("C13", BASE, "        if not (self.nodes[channel_names].nunique(dropna=False) <= 1).all():", "        if not (self.nodes[channel_names].var() == 0.0).all():", "R-C13-uniform")
+B("C13", BASE, "            self.nodes[channel_param_names + channel_state_names].nunique(dropna=False)\n            <= 1\n        ).all():", "            self.nodes[channel_param_names + channel_state_names].std() == 0.0\n        ).all():", "R-C13-uniform")
+P("C13", BASE, "        if not (self.nodes[channel_names].nunique(dropna=False) <= 1).all():", "        if not (self.nodes[channel_names] == self.nodes[channel_names].iloc[0]).all().all():")
+# emptiness guards test the selection the guarded block uses
+for _p in ("C01", "C02", "C15"):
+    B(_p, SV, "    if len(sinks[c2c]) > 0:\n        diags = diags.at[idx.mask(sinks[c2c])].add(delta_t * axial_conductances[c2c])", "    if len(sinks[types == 0]) > 0:\n        diags = diags.at[idx.mask(sinks[c2c])].add(delta_t * axial_conductances[c2c])", "R-%s-guards" % _p)
+P("C01", SV, "    if len(sinks[c2c]) > 0:\n        diags = diags.at[idx.mask(sinks[c2c])].add(delta_t * axial_conductances[c2c])", "    if len(axial_conductances[c2c]) > 0:\n        diags = diags.at[idx.mask(sinks[c2c])].add(delta_t * axial_conductances[c2c])")
+# membership tests look the key up in the container that is updated
+for _p in ("C08", "C11", "C19"):
+    B(_p, BASE, "        if key in self.base.externals.keys():\n            self.base.externals[key] = jnp.concatenate(", "        if key in self.externals.keys():\n            self.base.externals[key] = jnp.concatenate(", "R-%s-membership" % _p)
+B("C19", BASE, "        if group_name not in self.base.groups:", "        if group_name not in self.groups:", "R-C19-membership")
+# key-kind aware key tests: a state key is never a member of the parameter-name set
+for _p, _r in (("C05", "R-C05-scatter"), ("C10", "R-C10-scatter"), ("C09", "R-C09-space")):
+    B(_p, BASE, "            if key in self.base.synapse_state_names:\n                synapse_inds = self.base.edges", "            if key in self.base.synapse_param_names:\n                synapse_inds = self.base.edges", _r)
+# the step function leaves its inputs alone
+B("C07", BASE, "                inds = external_inds[key]\n                if key in self._edge_state_names():\n                    # Clamps of synaptic states are indexed by the global edge index.\n                    inds = jnp.asarray(self._edge_inds_within_type())[inds]\n                u[key] = u[key].at[inds].set(externals[key])",
+  "                if key in self._edge_state_names():\n                    external_inds[key] = jnp.asarray(self._edge_inds_within_type())[external_inds[key]]\n                u[key] = u[key].at[external_inds[key]].set(externals[key])", "R-C07-stepargs")
+# every result of the nested scan comes from the recursion
+for _p, _r in (("C06", "R-C06-scan"), ("C07", "R-C07-scan")):
+    B(_p, JU, "    def nested_reshape(x):", "    if math.prod(nested_lengths) == 1:\n        carry, out = f(init, jax.tree_util.tree_map(lambda x: x[0], xs))\n        return carry, jax.tree_util.tree_map(lambda y: jnp.expand_dims(y, 0), out)\n\n    def nested_reshape(x):", _r)
+# channel step / channel currents: one row selector, write-back by .set, accumulation by .add
+B("C03", BASE, "                states[key] = states[key].at[channel_indices].set(val)", "                states[key] = states[key].at[channel_indices].add(val)", "R-C03-rows")
+B("C03", BASE, "                states[key] = states[key].at[channel_indices].set(val)", "                states[key] = states[key].at[indices].set(val)", "R-C03-rows")
+B("C03", BASE, "                channel_states, delta_t, voltages[channel_indices], channel_params", "                channel_states, delta_t, voltages[indices], channel_params", "R-C03-rows")
+P("C03", BASE, "            for key, val in states_updated.items():\n                states[key] = states[key].at[channel_indices].set(val)", "            for key in states_updated:\n                states[key] = states[key].at[channel_indices].set(states_updated[key])")
+B("C02", BASE, "                .add(membrane_currents[0])", "                .set(membrane_currents[0])", "R-C02-currents")
+B("C02", BASE, "                channel_states[s] = states[s][indices]", "                channel_states[s] = states[s]", "R-C02-currents")
+B("C02", BASE, "            voltage_terms = voltage_terms.at[indices].add(voltage_term * 1000.0)", "            voltage_terms = voltage_terms.at[indices].set(voltage_term * 1000.0)", "R-C02-currents")
+# pad / truncate decided on the linear form of the guard
+P("C08", IG, "            if t_max_steps > externals[key].shape[0]:", "            if t_max_steps - externals[key].shape[0] > 0:")
+B("C08", IG, "            if t_max_steps > externals[key].shape[0]:", "            if externals[key].shape[0] - t_max_steps > 0:", "R-C08-time")
+# sibling batching assertions compared as conditions
+P("C08", BASE, "        assert batch_size in [\n            1,\n            num_inserted,\n        ], \"Number of comps and stimuli do not match.\"", "        assert (\n            batch_size == num_inserted or batch_size == 1\n        ), \"Number of comps and stimuli do not match.\"")
+# contiguous range instead of the level filter
+for _p in ("C01", "C02", "C12"):
+    B(_p, CU, "        for b in range(num_branches):\n            if levels[b] == l:\n                children_in_current_level.append(children_row_and_col[b - 1])\n        children_in_current_level = np.asarray(children_in_current_level)",
+      "        in_level = np.asarray(levels) == l\n        first_branch = int(np.argmax(in_level))\n        children_in_current_level = np.asarray(children_row_and_col[first_branch - 1 : first_branch - 1 + int(np.sum(in_level))])", "R-%s-levels" % _p)
+# _consecutive_indices normal form
+P("C01", SU, "            repeated_starts = np.reshape(np.repeat(start_inds, n_inds), (-1, n_inds[0]))\n            # For single compartment neurons there are no uppers or lowers, so `n_inds`\n            # can be zero.\n            return repeated_starts + np.arange(n_inds[0]).astype(int)",
+  "            return np.asarray(start_inds)[:, None] + np.arange(n_inds[0]).astype(int)[None, :]")
+B("C01", SU, "            return repeated_starts + np.arange(n_inds[0]).astype(int)", "            return repeated_starts + np.arange(n_inds[0] + 1).astype(int)", "R-C01-layout")
+# node-selected views keep an edge iff both ends are in view, however the masks are combined
+P("C11", BASE, "            possible_edges_in_view = base_edges.index.to_numpy()[(pre & post).flatten()]", "            possible_edges_in_view = base_edges.index.to_numpy()[np.logical_and(pre, post)]")
+B("C11", BASE, "            possible_edges_in_view = base_edges.index.to_numpy()[(pre & post).flatten()]", "            possible_edges_in_view = base_edges.index.to_numpy()[np.logical_or(pre, post)]", "R-C11-edges")
